@@ -169,6 +169,47 @@ def propagate_case(comp, new_iv):
                 bounds={"composition": comp, "new interval": new_iv})
 
 
+def slts_propagate_case(comp, new_iv, same_as_top):
+    """SpeedLimitTrainSim::set_save_interval reaches consist, locomotives, components and the friction brake,
+    also when the top-level field already holds the requested value"""
+    kinds = {"C": "conv", "B": "bel"}
+    locos = []
+    for j, ch in enumerate(comp):
+        t = loco_tree(kinds[ch], "None", f"l{j}_")
+        t["save_interval"] = Sym(f"p{j}", "int")
+        cp = t["loco_type"].payload[0]
+        for q, k in enumerate(cp):
+            cp[k]["save_interval"] = Sym(f"p{j}_{q}", "int") if q % 2 == 0 else None
+        locos.append(t)
+    consist = {"loco_vec": locos, "pdct": Variant("RESGreedy", {}), "assert_limits": True, "state": auto_state("ConsistState", "cs_"), "save_interval": Sym("pc", "int"), "n_res_equipped": NONE_RAW}
+    recv = slts_tmpl(consist)
+    recv["fric_brake"]["save_interval"] = None
+    new_t = None if new_iv == "None" else IK
+    recv["save_interval"] = new_t if same_as_top else (Sym("ptop", "int") if new_iv == "None" else None)
+
+    def paths():
+        out = ["loco_con", "fric_brake"]
+        for j, ch in enumerate(comp):
+            out.append(f"loco_con.loco_vec.{j}")
+            out += [f"loco_con.loco_vec.{j}." + p for p in loco_paths(kinds[ch])]
+        return out
+
+    def reached(c):
+        def same(v):
+            if new_iv == "None":
+                return v is None
+            return v is not None and XEQ(v, c.S["k"])
+        return AND(same(c.post["save_interval"]), *[same(c.post[p + ".save_interval"]) for p in paths()])
+
+    def assume(S):
+        return [(f"{n} >= 1", S[n] >= 1) for n in S if n.startswith("p") or n == "k"]
+
+    return Case(f"speed_limit_sim_set_save_interval_{comp}_{new_iv}_{'top_already_set' if same_as_top else 'top_differs'}", "C19", "SpeedLimitTrainSim", recv,
+                [Call("SpeedLimitTrainSim::set_save_interval", [("Option<usize>", new_t)])], assume,
+                [Claim("the new interval reached the train, its friction brake, the consist, every locomotive and every component", reached, role="interval_propagation"), Claim("no_panic", None, when="nopanic")],
+                bounds={"composition": comp, "new interval": new_iv, "top-level field before": "equal to the request" if same_as_top else "different"})
+
+
 def ssts_step_case(ivk, npts=2, i=1):
     """SetSpeedTrainSim::step: solve -> save -> increment; the saved entry is the solved state of this step"""
     t = C14.ssts_tmpl(i, npts)
@@ -216,6 +257,7 @@ def m_cases(tier):
         cs += [loco_case("conv", ivk), loco_case("bel", ivk), consist_case("CB", ivk)]
         cs.append(ssts_step_case(ivk))
     cs += [propagate_case("CB", "Some"), propagate_case("CB", "None")]
+    cs += [slts_propagate_case("CB", "Some", True), slts_propagate_case("CB", "Some", False), slts_propagate_case("CB", "None", True), slts_propagate_case("CB", "None", False)]
     if tier == "thorough":
         for ivk in ("Some", "None"):
             cs += [consist_case("CBC", ivk), consist_case("BB", ivk), ssts_step_case(ivk, 3, 2)]
